@@ -411,3 +411,9 @@ REGISTRY["C17"] = dict(run=_hp.run_c17, footprint_doc="backward_simulate histori
 REGISTRY["C18"] = dict(run=_hp.run_c18, footprint_doc="remove/insert_absence_time_list histories")
 for _p in ("C09", "C15", "C17", "C18"):
     FOOTPRINT.setdefault(_p, (["*"], None))
+
+import persist as _pe
+REGISTRY["C16"] = dict(run=_pe.run_c16, footprint_doc="write_simple_json / read_simple_json at five life stages; static inspection of constructor parameters")
+REGISTRY["C20"] = dict(run=_pe.run_c20, footprint_doc="sub-project setters; parent run (all phases)")
+for _p in ("C16", "C20"):
+    FOOTPRINT.setdefault(_p, (["*"], None))
